@@ -81,6 +81,27 @@ let handle fields impl : string option * string list =
       | Some _ -> if impl = "ok " ^ h then [] else ["version-framing-mismatch sender and receiver disagree: " ^ impl]
       | None -> if starts impl "err" then [] else ["version-transfer-without-common-version " ^ impl] in
     (Some m, mons)
+  | ["accenc"; own; _tablepv; kind; pv; _ex; _n] ->
+    let pv = if kind = "list" then pv else "-" in
+    let m = match fst (get_or_store (vl own) empty_cache (n_ 0) (entry kind pv)) with
+      | Ok v -> (match accept_kind_of v with
+          | Ok AcceptBitlist -> "ok enc=0" | Ok AcceptCodes -> "ok enc=1" | _ -> "err")
+      | _ -> "err" in
+    (* specification independent of the model: the encoding is the one of the version negotiated from the record of the
+       REQUEST (max common; own first-listed version when it has no pv entry), whatever the table holds and whether or not
+       a slot is free *)
+    let spec = if kind = "list" then spec_max (ivl own) (ivl pv) else (match ivl own with v0 :: _ -> Some v0 | [] -> None) in
+    let mons =
+      if starts impl "ok" then begin
+        let e = field impl "enc" in
+        match spec with
+        | Some v when supported v && e <> string_of_int v ->
+          [Printf.sprintf "accept-encoded-in-wrong-version negotiated version %d, reply is in encoding %s" v e]
+        | Some v when not (supported v) -> ["accept-sent-for-unsupported-version " ^ impl]
+        | None -> ["accept-sent-without-common-version " ^ impl]
+        | _ -> []
+      end else if starts impl "panic" then ["handle-talk-request-panics " ^ impl] else [] in
+    (Some m, mons)
   | ["hist"; own; steps] ->
     let parse part = match String.split_on_char ':' part with
       | [i; kind; pv] -> (int_of_string i, kind, pv)
